@@ -11,6 +11,9 @@ pub mod emf;
 pub mod flex;
 pub mod instrument;
 mod keep_alive;
+#[cfg(kani)]
+#[doc(hidden)]
+pub use keep_alive::verif_hooks as verif_keep_alive;
 
 /// Provides timing utilities for metrics, including timestamps and duration measurements.
 ///
